@@ -264,8 +264,24 @@ impl EGraph {
                     for (rule_id, _rule) in rules.iter() {
                         let rule_info = record.rule_info.get_mut(rule_id).unwrap();
 
-                        let matches: Vec<Value> =
+                        let mut matches: Vec<Value> =
                             std::mem::take(rule_info.matches.lock().unwrap().as_mut());
+                        // Residual matches live outside the database, so rebuilding never
+                        // touches them. Re-canonicalize their ids before they are offered
+                        // (and possibly applied) again; otherwise a match that was held back
+                        // across a union writes rows keyed by displaced ids.
+                        if !rule_info.free_vars.is_empty() {
+                            let tys: Vec<ColumnTy> = rule_info
+                                .free_vars
+                                .iter()
+                                .map(|v| v.sort.column_ty(&self.backend))
+                                .collect();
+                            for row in matches.chunks_mut(tys.len()) {
+                                for (v, ty) in row.iter_mut().zip(tys.iter()) {
+                                    *v = self.backend.get_canon_repr(*v, *ty);
+                                }
+                            }
+                        }
                         let mut matches = Matches::new(matches, rule_info.free_vars.clone());
                         rule_info.should_seek =
                             record
